@@ -400,7 +400,7 @@ def run_B(case):
             ref[sn] = F.fp(c02.predict(fam, model, d))
         except Exception as exc:
             ref[sn] = "raise:" + type(exc).__name__
-    alphabet = [("rt_json", "rt_json"), ("rt_dict", "rt_dict")] + [(f"predict:{sn}", sn) for sn, _ in sets[:: (1 if case["tier"] == "thorough" else 2)]]
+    alphabet = [("rt_json", "rt_json"), ("rt_dict", "rt_dict"), ("rt_json_keys_sorted", "rt_json_keys_sorted")] + [(f"predict:{sn}", sn) for sn, _ in sets[:: (1 if case["tier"] == "thorough" else 2)]]
     dsets = dict(sets)
 
     def canon(m):
@@ -414,6 +414,12 @@ def run_B(case):
         if op == "rt_json":
             try:
                 return ("__replace__", (cls.from_json(m.to_json()), "loaded"))
+            except Exception as exc:
+                return "raise:" + type(exc).__name__ + ":" + str(exc)[:160]
+        if op == "rt_json_keys_sorted":
+            # the same document with its object keys in another order (as a jsonb column or sort_keys=True returns them)
+            try:
+                return ("__replace__", (cls.from_json(json.dumps(json.loads(m.to_json()), sort_keys=True)), "loaded"))
             except Exception as exc:
                 return "raise:" + type(exc).__name__ + ":" + str(exc)[:160]
         if op == "rt_dict":
